@@ -11,10 +11,14 @@ Stage 2 (direct search): the same generated histories are driven through the rea
   the 5 MiB multipart threshold) and compared: result class of every step, key set = file set,
   bytes (inventories as JSON values, sidecars against their inventory), every read-API answer.
   For the slash-spelled prefixes the filesystem repository is opened under a root path spelled
-  with the same trailing slashes ("the same path on the file system").
+  with the same trailing slashes ("the same path on the file system").  Flat layouts (0002,
+  0006, explicit roots without layout) with object roots that are string prefixes of one another
+  (obj1 / obj10 / obj1-copy) are purged and re-created: a recursive listing of `obj1`
+  must not reach `obj10/...`.
 Stage 3 (correspondence): the Gallina model (Model/S3.v) is evaluated on the observed bucket dumps:
   the InventoryIter scan with its exact ListObjectsV2 request sequence (continuation tokens
-  included), the listing server, paging, keys of the filesystem tree and back.
+  included), the listing server, paging, keys of the filesystem tree and back, purge_object (the DELETE
+  requests in order and the bucket afterwards).
 """
 import concurrent.futures
 import hashlib
@@ -334,7 +338,94 @@ def plan(ctx):
         ops += hist.gen_history(rng, cfg, 8 if quick else 20, n_objects=2)
         cases.append({"idx": 1000 + j, "cfg": cfg, "ops": ops, "variants": [(pfx, [2, 1000, 1, 3][j % 4])],
                       "fs_suffix": trailing_slashes(pfx)})
+    # object roots of which one is a proper STRING prefix of others (only flat layouts and explicit roots
+    # produce them): a recursive listing / purge of `obj1` must leave `obj10/...`, `obj1-copy/...` ('-' sorts
+    # before '/', '0' after it) alone, as remove_dir_all of one directory does.  Purge, re-create, validate
+    # (final read API) and listings are in every such history.
+    for j, (lay, pool, roots) in enumerate(OVERLAP):
+        base_cfg = next((c for c in cfgs if c["layout"] == lay), None)
+        if base_cfg is None:
+            continue
+        cfg = dict(base_cfg, ext_staging=True, fresh_handle=(j == 1))
+        ops = overlap_history(rng, cfg, pool, roots, 10 if quick else 30)
+        if quick:
+            variants = [(None, [1, 2, 1000][j % 3]), ("nested/pre", [2, 1000, 1][j % 3])]
+        else:
+            variants = [(pfx, ps) for pfx in (None, "nested/pre", "t/") for ps in (1, 2, 1000)]
+        cases.append({"idx": 2000 + j, "cfg": cfg, "ops": ops, "variants": variants, "overlap": True})
+    # class s3-object-root-unchecked (see Model/KnownS3.v): object roots the file-system store refuses and the S3
+    # store accepts.  As for the other known classes of this framework the inputs are generated once the `known:`
+    # line is registered (a history that ends in a known divergence shows nothing else).
+    if ROOT_CLASS_ID in {k["id"] for k in ctx.known}:
+        for j, (lay, ops, root) in enumerate(root_class_histories()):
+            base_cfg = next((c for c in cfgs if c["layout"] == lay), None)
+            if base_cfg is None:
+                continue
+            cfg = dict(base_cfg, ext_staging=True, fresh_handle=False)
+            cases.append({"idx": 3000 + j, "cfg": cfg, "ops": ops, "variants": [([None, "nested/pre"][j % 2], [1000, 2][j % 2])],
+                          "watch_root": root})
     return cases
+
+
+ROOT_CLASS_ID = "s3-object-root-unchecked"
+
+
+def root_class_histories():
+    def mk(oid, k=1, name="a.txt", root=None):
+        c = {"op": "commit", "id": oid}
+        if root:
+            c["object_root"] = root
+        return [{"op": "new", "id": oid}, {"op": "cp_ext", "id": oid, "files": [[name, k]], "dst": name, "recursive": False}, c]
+    return [("0002", mk("obj1") + mk("obj1/sub", 2), "obj1/sub"),
+            ("0002", mk("obj1/sub") + mk("obj1", 2), "obj1"),
+            ("0002", mk("obj1") + mk("obj1/v1/content", 2), "obj1/v1/content"),
+            ("0002", mk("extensions/e1"), "extensions/e1"),
+            ("0002", mk("../out"), "../out"),
+            ("none", mk("o1", 1, root="objs/o1") + mk("o2", 2, root="objs/o1/sub"), "objs/o1/sub"),
+            ("none", mk("o1", 1, root="../x"), "../x"),
+            ("none", mk("o1", 1, root="extensions/x"), "extensions/x")]
+
+
+def py_root_class(existing, root):
+    segs = root.split("/")
+    return (".." in segs or segs[0] == "extensions"
+            or any(root.startswith(r + "/") or r.startswith(root + "/") for r in existing))
+
+
+OVERLAP = [
+    ("0002", ["obj1", "obj10", "obj1-copy"], None),
+    ("0006", ["urn:obj:1", "urn:obj:10", "urn:obj:1-copy"], None),
+    ("none", ["o1", "o10", "o1-copy"], {"o1": "objs/o1", "o10": "objs/o10", "o1-copy": "objs/o1-copy"}),
+]
+
+
+def overlap_history(rng, cfg, pool, roots, n_random):
+    short, long_, other = pool[0], pool[1], pool[2]
+    ops = []
+
+    def create(oid, k, name="a.txt"):
+        ops.extend([{"op": "new", "id": oid},
+                    {"op": "cp_ext", "id": oid, "files": [[name, k]], "dst": name, "recursive": False},
+                    {"op": "commit", "id": oid}])
+    create(long_, 1)
+    create(short, 2)
+    create(other, 3)
+    ops += [{"op": "cp_ext", "id": short, "files": [["b.txt", 4]], "dst": "dir/b.txt", "recursive": False},
+            {"op": "commit", "id": short},
+            {"op": "purge", "id": short}]          # must not touch long_ / other
+    create(short, 5, "c.txt")                      # re-create under the same root
+    ops += [{"op": "purge", "id": long_},
+            {"op": "cp_ext", "id": other, "files": [["d.txt", 1]], "dst": "d.txt", "recursive": False},
+            {"op": "commit", "id": other}]
+    create(long_, 2, "e.txt")
+    gen_ids = [hist.obj_id(cfg, k) for k in range(3)]
+    back = dict(zip(gen_ids, pool[:3]))
+    for o in hist.gen_history(rng, cfg, n_random, n_objects=3):
+        ops.append(dict(o, id=back[o["id"]]))
+    ops.append({"op": "purge", "id": short})
+    if roots:
+        ops = [dict(o, object_root=roots[o["id"]]) if o["op"] == "commit" and o["id"] in roots else o for o in ops]
+    return ops
 
 
 # --------------------------------------------------------------------------- Coq terms
@@ -398,8 +489,17 @@ def coq_terms(run):
     names.append("paths_of_keys")
     parts.append("check_storage_list_all ks %s tr" % coq_str(cp))
     names.append("storage_list")
+    for pg in run.get("purges", []):
+        bkt = lambda d: coq_list(["(%s, %s)" % (coq_str(k), coq_str(d[k])) for k in sorted(d, key=lambda k: k.encode("utf-8"))])
+        parts.append("check_purge %s %s %s %d %s %s" % (coq_str(cp), coq_str(pg["root"]), bkt(pg["before"]), pg["class"],
+                                                      coq_list([coq_str(k) for k in pg["deleted"]]), bkt(pg["after"])))
+        names.append("purge")
     term = "let ks := %s in let tr := %s in [%s]" % (ks, tree, "; ".join(parts))
     return term, names
+
+
+def bucket_tokens(d):
+    return {k: hashlib.sha256(v).hexdigest()[:8] for k, v in d.items()}
 
 
 # --------------------------------------------------------------------------- execution
@@ -465,16 +565,28 @@ def run_case(ctx, case, stubs):
             bucket = "b%dv%d" % (case["idx"], vi)
             rec = {"case": case["idx"], "cfg": cfg, "ops": ops, "prefix": prefix, "page_size": page_size,
                    "shape": prefix_shape(prefix), "fs_suffix": suffix, "msg": None, "empty_dirs": empty_dirs,
-                   "steps": len(ops), "ok_steps": sum(1 for c in fs_classes if c == "ok"), "multipart": 0}
+                   "steps": len(ops), "ok_steps": sum(1 for c in fs_classes if c == "ok"), "multipart": 0,
+                   "purges": [], "overlap": bool(case.get("overlap"))}
             s3 = None
             try:
                 s3 = s3stub.make_s3_runner(ctx, cfg, name + "-s3-%d" % vi, stub, bucket, prefix)
                 base = s3stub.norm_prefix(prefix)
                 for k, op in enumerate(ops):
+                    watch = None
+                    if op["op"] == "purge" and len(rec["purges"]) < (6 if case.get("overlap") else 2):
+                        # observation for the model of purge_object: the committed root of the object and the bucket before
+                        g = s3.s.call(dict(cmd="get_object", h=s3.h, id=op["id"], version=None))
+                        root = norm_path(g["ok"].get("object_root"), base) if "ok" in g else None
+                        if isinstance(root, str) and root in s3.object_roots():
+                            watch = {"root": root, "before": bucket_tokens(stub.dump(bucket))}
                     stub.clear_log()
                     cmd, r = s3.step(materialise(op))
                     rec["multipart"] += sum(1 for e in stub.log if e["kind"] == "mp-complete")
                     c = hist.res_class(r)
+                    if watch is not None:
+                        watch.update(after=bucket_tokens(stub.dump(bucket)), deleted=[e["key"] for e in stub.log if e["kind"] == "delete"],
+                                     **{"class": 0 if c == "ok" else 2 if c == "panic" else 1})
+                        rec["purges"].append(watch)
                     if c != fs_classes[k] and not rec["msg"]:
                         rec["msg"] = "step %d (%s): fs %s / s3 %s" % (k, op["op"], fs_classes[k], c)
                     if fs_snaps[k] is not None and not rec["msg"]:
@@ -512,6 +624,8 @@ def run_case(ctx, case, stubs):
                 rec["s3_tokens_full"] = {k: canon_token(k, v) if not k.rsplit("/", 1)[-1].startswith("inventory.json.") else "S" for k, v in full.items()}
                 rec["fs_tokens"] = {k: canon_token(k, v) if not k.rsplit("/", 1)[-1].startswith("inventory.json.") else "S" for k, v in fsf.items()}
                 rec["n_keys"] = len(full)
+                if case.get("watch_root") is not None:
+                    rec["root_class"] = {"root": case["watch_root"], "existing": [x for x in oroots if x != case["watch_root"]]}
             except common.BuildError as e:
                 rec["msg"] = rec["msg"] or "S3 repository could not be driven: %s" % str(e)[:300]
                 rec.setdefault("s3_raw", [])
@@ -575,8 +689,15 @@ def run(ctx):
     cls = common.coq_eval("c15k", ["Base.Bytes", "Model.S3", "Corr.CheckS3"],
                           ["stored_prefix_is %s %s" % (coq_str(r["prefix"] or ""), coq_str(s3stub.norm_prefix(r["prefix"]))) for r in runs])
 
+    known_ids = {k["id"] for k in ctx.known}
+    watched = [r for r in runs if r.get("root_class")]
+    rcls = dict(zip([id(r) for r in watched],
+                    common.coq_eval("c15r", ["Base.Bytes", "Model.S3", "Model.KnownS3", "Corr.CheckS3"],
+                                    ["known_c15_root %s %s" % (coq_list([coq_str(x) for x in r["root_class"]["existing"]]), coq_str(r["root_class"]["root"]))
+                                     for r in watched]))) if watched else {}
     dist = {"runs": 0, "steps": 0, "ok_steps": 0, "multipart_uploads": 0, "page_sizes": {}, "prefixes": {}, "layouts": {},
             "keys_max": 0, "list_requests": 0, "truncated_pages": 0, "fs_empty_dirs": 0, "prefix_shapes": {}, "fs_root_spelled_with_trailing_slashes": 0, "model_checks": 0,
+            "runs_with_string_prefix_overlapping_object_roots": 0, "known_class_runs": 0, "purges_checked_against_model": 0, "keys_deleted_by_those_purges": 0,
             "resets_inserted_for_staged_duplicates": 0}
     for r, val, kc, nm in zip(runs, res, cls, names):
         dist["runs"] += 1
@@ -588,6 +709,9 @@ def run(ctx):
         dist["prefixes"][str(r["prefix"])] = dist["prefixes"].get(str(r["prefix"]), 0) + 1
         dist["prefix_shapes"][r["shape"]] = dist["prefix_shapes"].get(r["shape"], 0) + 1
         dist["fs_root_spelled_with_trailing_slashes"] += 1 if r["fs_suffix"] else 0
+        dist["runs_with_string_prefix_overlapping_object_roots"] += 1 if r["overlap"] else 0
+        dist["purges_checked_against_model"] += len(r["purges"])
+        dist["keys_deleted_by_those_purges"] += sum(len(x["deleted"]) for x in r["purges"])
         dist["layouts"][r["cfg"]["layout"]] = dist["layouts"].get(r["cfg"]["layout"], 0) + 1
         dist["keys_max"] = max(dist["keys_max"], r.get("n_keys", 0))
         dist["fs_empty_dirs"] += len(r["empty_dirs"])
@@ -598,11 +722,18 @@ def run(ctx):
             common.corr_break(ctx, "S3.client_prefix (s3.rs:741) disagrees with the driver's s3stub.norm_prefix", {"prefix": r["prefix"]})
         vals = [v.strip() for v in val.strip("[]").split(";")] if val.strip("[]").strip() else []
         dist["model_checks"] += len(vals)
-        inp = {"cfg": r["cfg"], "ops": r["ops"], "prefix": r["prefix"], "page_size": r["page_size"], "fs_suffix": r["fs_suffix"]}
+        inp = {"cfg": r["cfg"], "ops": r["ops"], "prefix": r["prefix"], "page_size": r["page_size"], "fs_suffix": r["fs_suffix"],
+               "watch_root": (r.get("root_class") or {}).get("root")}
         ctx.count((r["case"], r["prefix"], r["page_size"]), nontrivial=r["ok_steps"] > 2,
                   sample={"prefix": r["prefix"], "prefix_shape": r["shape"], "fs_root_suffix": r["fs_suffix"], "page_size": r["page_size"], "layout": r["cfg"]["layout"], "steps": r["steps"],
                           "keys": r.get("n_keys"), "difference": r["msg"], "model": dict(zip(nm, vals)) if len(nm) == len(vals) else val})
-        if r["msg"]:
+        rc = r.get("root_class")
+        if r["msg"] and rc and py_root_class(rc["existing"], rc["root"]) and ROOT_CLASS_ID in known_ids:
+            ctx.known_hit(ROOT_CLASS_ID)
+            dist["known_class_runs"] += 1
+            if rcls.get(id(r)) != "true":
+                common.corr_break(ctx, "KnownS3.c15_s3_object_root_unchecked disagrees with the driver's classification", {"input": inp, "root_class": rc})
+        elif r["msg"]:
             ctx.violation("impl-violation", {"input": inp, "observed": r["msg"],
                                              "expected": "the S3 repository equals the filesystem repository driven by the same history"})
         else:
@@ -617,7 +748,8 @@ def run(ctx):
     return common.finish_with_proof(ctx, proof,
         rule="histories from vplib.hist.gen_history (create, stage, commit, upgrade, purge; all layouts incl. none) run on a filesystem "
              "repository and on the S3 stand-in per (prefix, page size) variant (prefixes: none, plain, nested, and spelled with trailing / only / "
-             "leading / inner double slashes, all must-pass); distinct = distinct (history, prefix, page size); "
+             "leading / inner double slashes, all must-pass; plus flat layouts 0002 / 0006 / explicit roots with object roots that are string "
+             "prefixes of one another - obj1, obj10, obj1-copy - with purge and re-creation); distinct = distinct (history, prefix, page size); "
              "non-trivial = more than two successful steps; every run compared step by step, store against store, read API against read API")
 
 
@@ -628,14 +760,16 @@ def replay(ctx, body):
         return run(ctx)
     common.build_harness()
     case = {"idx": 0, "cfg": inp["cfg"], "ops": inp["ops"], "variants": [(inp["prefix"], inp["page_size"])],
-            "fs_suffix": inp.get("fs_suffix") or ""}
+            "fs_suffix": inp.get("fs_suffix") or "", "watch_root": inp.get("watch_root")}
     pool = StubPool(1)
     try:
         runs = run_case(ctx, case, pool)
     finally:
         pool.stop()
+    known_ids = {k["id"] for k in ctx.known}
     for r in runs:
-        if r["msg"]:
+        rc = r.get("root_class")
+        if r["msg"] and not (rc and py_root_class(rc["existing"], rc["root"]) and ROOT_CLASS_ID in known_ids):
             ctx.violation("impl-violation", {"input": inp, "observed": r["msg"],
                                              "expected": "the S3 repository equals the filesystem repository driven by the same history"})
     return ctx.finish(rule="replay of one recorded history")
